@@ -357,6 +357,11 @@ def r10_2(ctx):
     for q in (RAS + 'add_edge', RAS + 'rasterize', RAS + 'step_edges', RAS + 'insert_starting_edges', RAS + 'scan_edges', RAS + 'sort_edges'):
         ctx.body(q, R)
         dirty |= ras_field_writes(ctx, q)
+    # any other method of Rasterizer that writes its fields (a setter added later, say) dirties them as well; only the
+    # constructor and reset() itself are exempt
+    for q, ob in ctx.F.bodies.items():
+        if ob.impl_self == 'raqote::rasterizer::Rasterizer' and not ob.impl_trait and q not in (RAS + 'new', RAS + 'reset') and '::{closure' not in q:
+            dirty |= ras_field_writes(ctx, q)
     # the arena is dirtied by allocation through a shared reference
     ab = ctx.body(RAS + 'add_edge', R)
     if any(d and d.endswith('Arena::<T>::alloc') for bi, d, ct in calls_in(ctx, ab)):
@@ -1023,6 +1028,21 @@ def r01_11(ctx):
           k = p.d.get((), 0)
           nonconst = {m: c for m, c in p.d.items() if m != ()}
           okp = len(nonconst) == 1 and list(nonconst.values())[0] == 1 and len(list(nonconst)[0]) == 1
+          if okp:
+              # ... and that one term is an end/control coordinate itself (converted to sample units), not a value
+              # derived from several of them (the curve's extent in x is bounded by its control polygon, not by, say, its midpoint)
+              leaf0 = list(nonconst)[0][0]
+              def is_coord(t, depth=0):
+                  t = strip_all(t)
+                  if is_call(t, 'rasterizer::f32_to_dot2') and len(t[2]) == 1:
+                      return True
+                  if t[0] in ('phi', 'rec') and depth < 3:
+                      ds = an.phi_terms(t) if t[0] == 'phi' else [an.def_term(an.defs[t[1]])]
+                      return bool(ds) and all(is_coord(x, depth + 1) for x in ds)
+                  if t[0] == 'field' and t[2] in ('x1', 'x2', 'y1', 'y2', 'control_x', 'control_y'):
+                      return True
+                  return False
+              okp = is_coord(leaf0)
           if mm == 'min':
               okk = okp and k <= 0
               msg = 'rounded down (offset %s)' % k
